@@ -132,10 +132,17 @@ class SlotRef:
     def __init__(self, slot: "SlotNode", context: Context):
         self._slot = slot
         self._context = context
+        # NOTE: The slot's content belongs to the component that defined the slot. By the time this object
+        #       is rendered (inside a fill), the keys of the PARENT component may sit on top of the same Context
+        #       (see `SlotNode.render()`), so we remember the keys as they are now.
+        self._component_keys = {
+            key: context[key] for key in (_COMPONENT_CONTEXT_KEY, "component_vars") if key in context
+        }
 
     # Render the slot when the template coerces SlotRef to string
     def __str__(self) -> str:
-        return mark_safe(self._slot.nodelist.render(self._context))
+        with self._context.update(self._component_keys):
+            return mark_safe(self._slot.nodelist.render(self._context))
 
 
 class SlotIsFilled(dict):
